@@ -97,6 +97,8 @@ pub trait TicketsModule:
     }
 
     fn try_create_tickets(&self, buyer: ManagedAddress, nr_tickets: usize) {
+        require!(nr_tickets > 0, "Cannot allocate zero tickets");
+
         let ticket_range_mapper = self.ticket_range_for_address(&buyer);
         require!(ticket_range_mapper.is_empty(), "Duplicate entry for user");
 
